@@ -97,6 +97,14 @@ def gen(seed, nepisodes, prefix='r', kind='packet'):
                 live[s] = False
             elif r < 0.64 and kind == 'packet' and has_payload.get(s):
                 ops.append({'op': 'selfset', 'slot': s})
+            elif r < 0.68 and kind == 'packet' and has_payload.get(s) and d != s:
+                # copy / assign while a reference to the source's payload is held, then write through it (round7b-4)
+                ops.append({'op': 'copyref', 'dst': nxt if rng.random() < 0.5 else d, 'src': s, 'assign': True,
+                            'ptvia': rng.randrange(1, 256)})
+                if ops[-1]['dst'] == nxt:
+                    nxt += 1
+                live[ops[-1]['dst']] = True
+                has_payload[ops[-1]['dst']] = True
             elif r < 0.75:
                 if kind == 'packet':
                     m = {'op': 'mutate', 'slot': s, 'ts': wire.rbytes(rng, 8), 'fl': rng.randrange(256)}
